@@ -45,6 +45,10 @@ type R struct {
 	St []FrameRec
 	// unsafe argument of format-style constructors (nil = none)
 	Arg *string
+	// F: use the format-style constructor even without an argument (Newf(f), Wrapf(err, f),
+	// WithHintf(err, f) ...): the text is then the formatted one ("%%" collapses, a stray verb
+	// prints %!v(MISSING))
+	F bool
 	// the real error built for this node (not serialised)
 	built error
 }
@@ -247,12 +251,12 @@ func build(r *R) error {
 		res = mkUserLeaf(r)
 	case "new":
 		// In[0] = message or format; Arg = optional unsafe argument
-		if r.Arg == nil {
+		if r.Arg == nil && !r.F {
 			res = errors.New(in(r, 0))
 			r.S = []string{string(redact.Sprint(redact.Safe(in(r, 0))))}
 		} else {
-			res = errors.Newf(in(r, 0), *r.Arg)
-			r.S = []string{string(redact.Sprintf(in(r, 0), *r.Arg))}
+			res = errors.Newf(in(r, 0), fmtArgs(r)...)
+			r.S = []string{string(redact.Sprintf(in(r, 0), fmtArgs(r)...))}
 		}
 		r.St = newStack(res, nil)
 	case "assertionfailedf":
@@ -261,42 +265,42 @@ func build(r *R) error {
 		r.St = newStack(res, nil)
 	// ---- wrappers
 	case "wrap":
-		if r.Arg == nil {
+		if r.Arg == nil && !r.F {
 			res = errors.Wrap(k0, in(r, 0))
 			r.S = []string{string(redact.Sprint(redact.Safe(in(r, 0))))}
 			r.N = []int{b2i(in(r, 0) != "")}
 		} else {
-			res = errors.Wrapf(k0, in(r, 0), *r.Arg)
-			r.S = []string{string(redact.Sprintf(in(r, 0), *r.Arg))}
-			r.N = []int{1}
+			res = errors.Wrapf(k0, in(r, 0), fmtArgs(r)...)
+			r.S = []string{string(redact.Sprintf(in(r, 0), fmtArgs(r)...))}
+			r.N = []int{b2i(in(r, 0) != "" || r.Arg != nil)}
 		}
 		r.St = newStack(res, k0)
 	case "withmessage":
-		if r.Arg == nil {
+		if r.Arg == nil && !r.F {
 			res = errors.WithMessage(k0, in(r, 0))
 			r.S = []string{string(redact.Sprint(redact.Safe(in(r, 0))))}
 		} else {
-			res = errors.WithMessagef(k0, in(r, 0), *r.Arg)
-			r.S = []string{string(redact.Sprintf(in(r, 0), *r.Arg))}
+			res = errors.WithMessagef(k0, in(r, 0), fmtArgs(r)...)
+			r.S = []string{string(redact.Sprintf(in(r, 0), fmtArgs(r)...))}
 		}
 	case "withstack":
 		res = errors.WithStack(k0)
 		r.St = newStack(res, k0)
 	case "hint":
-		if r.Arg == nil {
+		if r.Arg == nil && !r.F {
 			res = errors.WithHint(k0, in(r, 0))
 			r.S = []string{in(r, 0)}
 		} else {
-			res = errors.WithHintf(k0, in(r, 0), *r.Arg)
-			r.S = []string{fmt.Sprintf(in(r, 0), *r.Arg)}
+			res = errors.WithHintf(k0, in(r, 0), fmtArgs(r)...)
+			r.S = []string{fmt.Sprintf(in(r, 0), fmtArgs(r)...)}
 		}
 	case "detail":
-		if r.Arg == nil {
+		if r.Arg == nil && !r.F {
 			res = errors.WithDetail(k0, in(r, 0))
 			r.S = []string{in(r, 0)}
 		} else {
-			res = errors.WithDetailf(k0, in(r, 0), *r.Arg)
-			r.S = []string{fmt.Sprintf(in(r, 0), *r.Arg)}
+			res = errors.WithDetailf(k0, in(r, 0), fmtArgs(r)...)
+			r.S = []string{fmt.Sprintf(in(r, 0), fmtArgs(r)...)}
 		}
 	case "issuelink":
 		res = errors.WithIssueLink(k0, errors.IssueLink{IssueURL: in(r, 0), Detail: in(r, 1)})
